@@ -2,6 +2,7 @@
 import os, json, random, subprocess, concurrent.futures, re
 from fractions import Fraction
 from vlib.common import *
+from vlib.common import run as _cmd_run      # this module's own run(ctx) shadows it below
 from vlib import coqrun as cq
 from vlib.impl import Avh, Sandbox
 
@@ -272,7 +273,7 @@ def strace_audit(ctx):
     try:
         tr = os.path.join(sb.root, 'strace.out')
         ev = json.dumps({'module_id': 'skill:s', 'pad': 'x' * 70000}).encode()
-        p = run(['strace', '-f', '-e', 'trace=openat,write', '-o', tr, AGENTPACK_BIN, 'record'], cwd=sb.project,
+        p = _cmd_run(['strace', '-f', '-e', 'trace=openat,write', '-o', tr, AGENTPACK_BIN, 'record'], cwd=sb.project,
                 env=sb.env(), input=ev, timeout=120)
         if p.returncode != 0 or not os.path.exists(tr):
             ctx.notes.append('strace audit unavailable (rc=%s)' % p.returncode); return
